@@ -2,5 +2,4 @@ package c09
 
 import "seehuhn.de/go/sfnt/verifharness/vlib"
 
-func genSmall(run *vlib.Run, r *vlib.Rand, tier string) {}
 func genTable(run *vlib.Run, r *vlib.Rand, tier string) {}
